@@ -639,3 +639,260 @@ c16f_run(const c16f_scn *scn, c16f_out *out) {
 	tp_res_cleanup();
 	g_close_unknown_passthrough = 0;
 }
+
+/* ============================ phase scripts (receive task) ============================ */
+#include <sys/ioctl.h>
+static const c16s_scn *gs_scn;
+static c16s_out *gs_out;
+static tp_task_p gs_task;
+static io_buf_t gs_iob;
+static int gs_sp[2];
+static atomic_uint gs_nlog, gs_done, gs_paused, gs_ntimeout, gs_nfull, gs_ndata, gs_stopped;
+static uint64_t gs_consumed, gs_base_off, gs_sent;
+static uint16_t gs_win_off, gs_win_len;
+
+static c16s_rec *
+s_log(uint8_t type) {
+	uint32_t i = atomic_fetch_add(&gs_nlog, 1);
+	static c16s_rec dummy;
+	if (i >= C16S_LOG) {
+		gs_out->log_overflow = 1;
+		memset(&dummy, 0, sizeof(dummy));
+		return (&dummy);
+	}
+	memset(&gs_out->log[i], 0, sizeof(c16s_rec));
+	gs_out->log[i].type = type;
+	return (&gs_out->log[i]);
+}
+/* owner thread: account for what moved into the window since the last report */
+static uint64_t
+s_account(uint8_t *mismatch) {
+	uint64_t adv = (uint64_t)gs_iob.offset - gs_base_off, i;
+	for (i = 0; i < adv; i ++) {
+		if (gs_iob.data[gs_base_off + i] != c16_pattern(gs_consumed + i))
+			(*mismatch) = 1;
+	}
+	gs_consumed += adv;
+	gs_base_off = (uint64_t)gs_iob.offset;
+	return (adv);
+}
+static void
+s_window(uint16_t off, uint16_t len) {
+	gs_win_off = off;
+	gs_win_len = len;
+	gs_iob.offset = off;
+	gs_iob.used = off;
+	IO_BUF_TR_SIZE_SET(&gs_iob, len);
+	gs_base_off = off;
+}
+static int
+s_task_cb(tp_task_p tptask, int error, io_buf_p buf, uint32_t eof, size_t transfered_size, void *udata) {
+	c16s_rec *r = s_log(1);
+	int ret = TP_TASK_CB_CONTINUE;
+
+	(void)udata; (void)buf;
+	if (tpt_get_current() != g_owner)
+		gs_out->foreign_thread = 1;
+	r->error = error;
+	r->eof = eof;
+	r->transfered = transfered_size;
+	r->offset = (uint64_t)gs_iob.offset;
+	r->tr_size = (uint64_t)IO_BUF_TR_SIZE_GET(&gs_iob);
+	r->adv = s_account(&r->mismatch);
+	if (ETIMEDOUT == error) {
+		atomic_fetch_add(&gs_ntimeout, 1);
+		if (gs_scn->on_timeout) {
+			r->pauses = 1;
+			atomic_store(&gs_paused, 1);
+			ret = TP_TASK_CB_NONE;
+		}
+	} else if (0 != error || 0 != (TP_TASK_IOF_F_BUF & eof)) {
+		tp_task_stop(tptask);
+		atomic_store(&gs_stopped, 1);
+		ret = (0 != error) ? TP_TASK_CB_NONE : TP_TASK_CB_EOF;
+	} else {
+		uint32_t k = atomic_fetch_add(&gs_ndata, 1) + 1;
+		if (0 == IO_BUF_TR_SIZE_GET(&gs_iob)) {
+			s_window(gs_win_off, gs_win_len); /* the window is consumed by the user and offered again */
+			atomic_fetch_add(&gs_nfull, 1);
+		}
+		if (2 == gs_scn->ev_flags && 0 != gs_scn->pause_data_k && k == gs_scn->pause_data_k) {
+			r->pauses = 1;
+			atomic_store(&gs_paused, 1);
+			ret = TP_TASK_CB_NONE;
+		}
+	}
+	return (ret);
+}
+static void
+s_start_cb(tpt_p tpt, void *udata) {
+	int rc;
+	(void)udata;
+	rc = tp_task_create(tpt, (uintptr_t)gs_sp[0], tp_task_sr_handler, (gs_scn->after_every_read ? TP_TASK_F_CB_AFTER_EVERY_READ : 0), NULL, &gs_task);
+	if (0 == rc)
+		rc = tp_task_start(gs_task, TP_EV_READ, (2 == gs_scn->ev_flags) ? TP_F_DISPATCH : 0, gs_scn->timeout_ms, 0, &gs_iob, s_task_cb);
+	gs_out->start_rc = rc;
+	atomic_fetch_add(&gs_done, 1);
+}
+static void
+s_restart_cb(tpt_p tpt, void *udata) {
+	const c16s_step *st = (const c16s_step *)udata;
+	c16s_rec *r = s_log(3);
+	(void)tpt;
+	tp_task_stop(gs_task);
+	r->adv = s_account(&r->mismatch); /* bytes received silently so far stay where they are; the user takes note of them here */
+	s_window(st->a, st->b);
+	atomic_store(&gs_paused, 0);
+	r->rc = tp_task_start(gs_task, TP_EV_READ, (2 == gs_scn->ev_flags) ? TP_F_DISPATCH : 0, gs_scn->timeout_ms, 0, &gs_iob, s_task_cb);
+	atomic_fetch_add(&gs_done, 1);
+}
+static void
+s_enable_cb(tpt_p tpt, void *udata) {
+	c16s_rec *r = s_log(4);
+	int q = 0;
+	(void)tpt; (void)udata;
+	if (0 == atomic_load(&gs_paused) || 0 != atomic_load(&gs_stopped)) {
+		r->skipped = 1;
+	} else {
+		(void)ioctl(gs_sp[0], FIONREAD, &q);
+		r->n = (uint64_t)q;
+		atomic_store(&gs_paused, 0);
+		r->rc = tp_task_enable(gs_task, 1);
+	}
+	atomic_fetch_add(&gs_done, 1);
+}
+static void
+s_final_cb(tpt_p tpt, void *udata) {
+	(void)tpt; (void)udata;
+	(void)s_log(5);
+	if (NULL != gs_task)
+		tp_task_destroy(gs_task);
+	gs_task = NULL;
+	atomic_fetch_add(&gs_done, 1);
+}
+static void s_fence_cb(tpt_p tpt, void *udata) { (void)tpt; (void)udata; atomic_fetch_add(&gs_done, 1); }
+static int
+s_call(tpt_msg_cb cb, const void *arg) {
+	uint32_t want = atomic_load(&gs_done) + 1;
+	if (0 != tpt_msg_send(g_owner, NULL, 0, cb, (void *)(uintptr_t)arg))
+		return (1);
+	return (tp_wait_until(&gs_done, want, CEIL_MS));
+}
+static void
+s_peer_write(size_t n) {
+	uint8_t piece[4096];
+	size_t k;
+	c16s_rec *r;
+
+	n = MIN(n, sizeof(piece));
+	for (k = 0; k < n; k ++)
+		piece[k] = c16_pattern(gs_sent + k);
+	gs_sent += n;
+	r = s_log(2);
+	r->n = n;
+	(void)!send(gs_sp[1], piece, n, MSG_NOSIGNAL); /* blocking socket end, far below the socket buffer: one atomic arrival */
+}
+
+void
+c16s_run(const c16s_scn *scn, c16s_out *out) {
+	tp_settings_t s;
+	size_t i;
+	uint32_t base;
+
+	memset(out, 0, sizeof(*out));
+	gs_scn = scn;
+	gs_out = out;
+	gs_task = NULL;
+	gs_consumed = gs_sent = 0;
+	atomic_store(&gs_nlog, 0);
+	atomic_store(&gs_done, 0);
+	atomic_store(&gs_paused, 0);
+	atomic_store(&gs_ntimeout, 0);
+	atomic_store(&gs_nfull, 0);
+	atomic_store(&gs_ndata, 0);
+	atomic_store(&gs_stopped, 0);
+	tp_harness_reset(&scn->plans);
+	g_close_unknown_passthrough = 1;
+	tp_settings_def(&s);
+	s.flags = 0;
+	s.threads_max = 1;
+	out->setup_rc = tp_create(&s, &g_tp);
+	if (0 != out->setup_rc)
+		return;
+	tp_threads_create(g_tp, 0);
+	g_owner = tp_thread_get(g_tp, 0);
+	if (0 != socketpair(AF_UNIX, SOCK_STREAM, 0, gs_sp)) {
+		out->setup_rc = errno;
+		return;
+	}
+	fcntl(gs_sp[0], F_SETFL, O_NONBLOCK);
+	memset(g_mem, GUARD_OUT, sizeof(g_mem));
+	memset(g_mem + 32, FILL_IN, scn->buf_size);
+	memset(&gs_iob, 0, sizeof(gs_iob));
+	gs_iob.data = g_mem + 32;
+	gs_iob.size = scn->buf_size;
+	s_window(scn->win_off, scn->win_len);
+	tp_harness_arm();
+	out->hang |= s_call(s_start_cb, NULL);
+	for (i = 0; i < scn->nsteps && i < C16S_MAX_STEPS && 0 == out->start_rc && !out->hang; i ++) {
+		const c16s_step *st = &scn->steps[i];
+		switch (st->op) {
+		case S_WRITE:
+			s_peer_write(st->a);
+			break;
+		case S_WAIT_TIMEOUT:
+			if (0 == scn->timeout_ms || 0 != atomic_load(&gs_paused))
+				break;
+			base = atomic_load(&gs_ntimeout);
+			if (0 != tp_wait_until(&gs_ntimeout, base + 1, CEIL_MS / 2))
+				out->never_reported |= 2; /* an armed idle task never reported its timeout */
+			break;
+		case S_RESTART:
+			out->hang |= s_call(s_restart_cb, st);
+			break;
+		case S_ENABLE:
+			out->hang |= s_call(s_enable_cb, NULL);
+			break;
+		case S_SLEEP:
+			usleep((useconds_t)st->a * 1000);
+			break;
+		}
+		out->hang |= s_call(s_fence_cb, NULL);
+		usleep(1500);
+		out->hang |= s_call(s_fence_cb, NULL);
+	}
+	if (0 == out->start_rc && !out->hang) {
+		/* the stream goes on: the task (re-enabled if it was paused) must report the next full window */
+		int tries;
+		out->hang |= s_call(s_enable_cb, NULL);
+		base = atomic_load(&gs_nfull);
+		s_peer_write((size_t)scn->buf_size);
+		for (tries = 0; tries < 40; tries ++) { /* a timeout answered with NONE may pause the task again at any moment: re-enable and keep waiting */
+			if (0 == tp_wait_until(&gs_nfull, base + 1, CEIL_MS / 80))
+				break;
+			out->hang |= s_call(s_enable_cb, NULL);
+		}
+		if (40 == tries)
+			out->never_reported |= 1;
+		out->hang |= s_call(s_fence_cb, NULL);
+	}
+	out->hang |= s_call(s_final_cb, NULL);
+	(void)!send(gs_sp[1], "late", 4, MSG_DONTWAIT | MSG_NOSIGNAL);
+	out->hang |= s_call(s_fence_cb, NULL);
+	usleep(1500);
+	out->hang |= s_call(s_fence_cb, NULL);
+	tp_harness_disarm();
+	for (i = 0; i < 32; i ++) {
+		if (GUARD_OUT != g_mem[i] || GUARD_OUT != g_mem[32 + scn->buf_size + i])
+			out->guards_bad = 1;
+	}
+	out->nlog = MIN(atomic_load(&gs_nlog), C16S_LOG);
+	tp_shutdown(g_tp);
+	tp_shutdown_wait(g_tp);
+	tp_destroy(g_tp);
+	close(gs_sp[0]);
+	close(gs_sp[1]);
+	tp_res_get(&out->res);
+	tp_res_cleanup();
+	g_close_unknown_passthrough = 0;
+}
